@@ -215,7 +215,14 @@ func c11generic(doc *jmut.Node, pick func(n int) int, limit int, under string) [
 		}
 		// near misses of the value itself: extended keys, other case, appended characters
 		if !c11freeText[key] && n.S != "" && len(n.S) < 60 {
-			for _, v := range []string{n.S + "+x", n.S + "+x+y", n.S + "+sepa+instant", n.S + "-x", n.S + "1", n.S + ".", strings.ToUpper(n.S), strings.ToLower(n.S), n.S[:len(n.S)-1]} {
+			near := []string{n.S + "+x", n.S + "+x+y", n.S + "+sepa+instant", n.S + "-x", n.S + "1", n.S + ".", strings.ToUpper(n.S), strings.ToLower(n.S), n.S[:len(n.S)-1]}
+			// the value with its first separator written as other white space, or doubled
+			if i := strings.IndexAny(n.S, ".-/ _:"); i > 0 {
+				near = append(near, n.S[:i]+"\t"+n.S[i+1:], n.S[:i]+"\n"+n.S[i+1:], n.S[:i]+n.S[i:i+1]+n.S[i:])
+			} else if len(n.S) > 3 {
+				near = append(near, n.S[:2]+"\t"+n.S[2:], n.S[:2]+" "+n.S[2:], n.S[:2]+"."+n.S[2:])
+			}
+			for _, v := range near {
 				if v != n.S && v != "" {
 					cands = append(cands, cand{p, v})
 				}
@@ -223,11 +230,24 @@ func c11generic(doc *jmut.Node, pick func(n int) int, limit int, under string) [
 		}
 	})
 	if limit > 0 && len(cands) > limit {
-		for i := 0; i < limit; i++ {
-			j := i + pick(len(cands)-i)
-			cands[i], cands[j] = cands[j], cands[i]
+		// extension values (each with its own value list or pattern) are always
+		// taken in full; the rest is sampled
+		var keep, rest []cand
+		for _, cd := range cands {
+			if len(cd.p) > 1 && cd.p[len(cd.p)-2].Key == "ext" {
+				keep = append(keep, cd)
+			} else {
+				rest = append(rest, cd)
+			}
 		}
-		cands = cands[:limit]
+		for i := 0; i < limit && i < len(rest); i++ {
+			j := i + pick(len(rest)-i)
+			rest[i], rest[j] = rest[j], rest[i]
+		}
+		if len(rest) > limit {
+			rest = rest[:limit]
+		}
+		cands = append(keep, rest...)
 	}
 	out := make([]*jmut.Node, 0, len(cands))
 	for _, cd := range cands {
